@@ -66,6 +66,26 @@ func expectMove(r *Rec, g0 *d2graph.Graph, pre *PBoard) (alts []*expectation, ki
 	return []*expectation{build(false), build(true)}, "move-same-scope-without-descendants"
 }
 
+// declaredThroughFlatKey: some plain (non-connection) key that declares or passes through the object has
+// more than one path element (`a.b: …`), the form Move has to split or slice.
+func declaredThroughFlatKey(g *d2graph.Graph, key string) bool {
+	abs, ok := resolveObj(g, key)
+	if !ok {
+		return false
+	}
+	for _, o := range g.Objects {
+		if o.AbsID() != abs {
+			continue
+		}
+		for _, ref := range o.References {
+			if ref.MapKey != nil && len(ref.MapKey.Edges) == 0 && ref.Key != nil && len(ref.Key.Path) > 1 {
+				return true
+			}
+		}
+	}
+	return false
+}
+
 func c39(r *Rec) eng.Res {
 	if r.Op.K != "rename" && r.Op.K != "move" {
 		return eng.OK("n/a:"+r.Op.K, false)
@@ -92,6 +112,9 @@ func c39(r *Rec) eng.Res {
 		return eng.OK("n/a:"+r.Op.K+"-outside-statement", false)
 	}
 	origin := seedFeature(r)
+	if declaredThroughFlatKey(g0, r.Op.Key) {
+		origin += ":target-in-flat-key"
+	}
 	if len(r.Op.B) > 0 {
 		origin += ":" + targetOrigin(r)
 	}
